@@ -192,75 +192,14 @@ spec fn has_sized(p: Seq<Record>) -> bool { exists|i: int| 0 <= i < p.len() && (
 
 impl<'a> QueueReader<'a> {
     spec fn n(&self) -> int { self.pc.prototype@.len() as int }
-    spec fn wf(&self) -> bool {
-        &&& self.reader.wf()
-        &&& proto_ok(self.pc.prototype@)
-        &&& self.buffer_sizes@.len() == self.n() && self.byte_streams@.len() == self.n() && self.queues@.len() == self.n()
-        &&& forall|i: int| 0 <= i < self.n() ==> (#[trigger] self.byte_streams@[i]).wf()
-        // a stream keeps fewer than 64 undecoded bits of a sized record between packets (C09)
-        &&& forall|i: int| 0 <= i < self.n() ==> (#[trigger] self.byte_streams@[i]).buffer@.len() <= 16
-        &&& forall|i: int| 0 <= i < self.n() ==> (#[trigger] self.queues@[i])@.len() <= MAX_Q
-    }
     /// points completely decoded and not yet handed out
     spec fn avail(&self) -> int
         recommends self.n() > 0
     { min_len(self.queues@, self.n()) }
 }
-/// no queue grows beyond this (usize arithmetic); one call adds at most 8*65535+63 values per queue
-spec const MAX_Q: int = 0x4000_0000_0000;
 spec fn min_len(q: Seq<VecDeque<RecordValue>>, n: int) -> int
     decreases n
 { if n <= 0 { usize::MAX as int } else { let m = min_len(q, n - 1); if q[n - 1]@.len() < m { q[n - 1]@.len() as int } else { m } } }
-
-impl<'a> QueueReader<'a> {
-//@fn src/queue_reader.rs QueueReader new serves=C03,C08,C09,C17 ret=r
-//@rw reader: &'a mut PagedReader<T> ==> reader: &'a mut PagedReader
-//@rw vec!\[0; pc\.prototype\.len\(\)\] ==> shim_vec_usize_zeros(pc.prototype.len())
-//@rw vec!\[ByteStreamReadBuffer::new\(\); pc\.prototype\.len\(\)\] ==> shim_vec_bsr(pc.prototype.len())
-//@rw vec!\[VecDeque::new\(\); pc\.prototype\.len\(\)\] ==> shim_vec_queues(pc.prototype.len())
-//@sig
-        requires old(reader).wf(), proto_ok(pc.prototype@),
-        ensures
-            match r {
-                // C17: fresh queues, absolute seeks only — nothing depends on the previous cursor or cache
-                Ok(q) => q.wf() && q.pc == *pc && q.reader.same_file(old(reader))
-                    && (forall|i: int| 0 <= i < q.n() ==> (#[trigger] q.queues@[i])@.len() == 0 && (#[trigger] q.byte_streams@[i]).rest().len() == 0),
-                Err(_) => final(reader).wf() && final(reader).same_file(old(reader)) },
-//@endfn
-
-//@fn src/queue_reader.rs QueueReader available serves=C03,C08,C09 ret=r
-//@sig
-        requires self.queues@.len() == self.n(),
-        ensures self.n() == 0 ==> r == 0, self.n() > 0 ==> r == self.avail(),
-            forall|i: int| 0 <= i < self.n() ==> r <= (#[trigger] self.queues@[i])@.len() || self.n() == 0,
-//@rw for q in &self\.queues ==> for q in it: &self.queues
-//@loop 0 head
-            invariant self.queues@.len() == self.n(), av == min_len(self.queues@, it.index@ as int),
-                forall|i: int| 0 <= i < it.index@ ==> av <= (#[trigger] self.queues@[i])@.len(),
-//@endfn
-
-//@fn src/queue_reader.rs QueueReader pop_point serves=C03,C08,C09,C01 ret=r
-//@sig
-        requires old(self).wf(),
-        ensures final(self).wf(), final(self).reader == old(self).reader, final(self).pc == old(self).pc,
-            final(self).byte_streams == old(self).byte_streams,
-            match r {
-                // one value from the front of each queue, in prototype order
-                Ok(_) => final(output)@.len() == old(self).n()
-                    && (forall|i: int| 0 <= i < old(self).n() ==> (#[trigger] old(self).queues@[i])@.len() > 0
-                        && final(output)@[i] == old(self).queues@[i]@[0]
-                        && final(self).queues@[i]@ =~= old(self).queues@[i]@.subrange(1, old(self).queues@[i]@.len() as int)),
-                Err(e) => e is Internal && exists|i: int| 0 <= i < old(self).n() && (#[trigger] old(self).queues@[i])@.len() == 0 },
-//@loop 0 head
-            invariant
-                self.wf(), self.reader == old(self).reader, self.pc == old(self).pc, self.byte_streams == old(self).byte_streams,
-                self.queues@.len() == old(self).queues@.len(),
-                output@.len() == i,
-                forall|j: int| 0 <= j < i ==> (#[trigger] old(self).queues@[j])@.len() > 0 && output@[j] == old(self).queues@[j]@[0]
-                    && self.queues@[j]@ =~= old(self).queues@[j]@.subrange(1, old(self).queues@[j]@.len() as int),
-                forall|j: int| i <= j < self.n() ==> self.queues@[j] == old(self).queues@[j],
-//@endfn
-}
 
 // ---- advance / parse_byte_streams -------------------------------------------------------------
 /// files are smaller than 512 PiB (keeps 8*offset inside usize; an assumption about the environment)
@@ -296,7 +235,59 @@ impl<'a> QueueReader<'a> {
         &&& forall|i: int| 0 <= i < self.n() ==> (#[trigger] self.byte_streams@[i]).wf()
         &&& forall|i: int| #[trigger] idx(i) && 0 <= i < self.n() ==> self.paid(i)
     }
+}
 
+impl<'a> QueueReader<'a> {
+//@fn src/queue_reader.rs QueueReader new serves=C03,C08,C09,C17 ret=r
+//@rw reader: &'a mut PagedReader<T> ==> reader: &'a mut PagedReader
+//@rw vec!\[0; pc\.prototype\.len\(\)\] ==> shim_vec_usize_zeros(pc.prototype.len())
+//@rw vec!\[ByteStreamReadBuffer::new\(\); pc\.prototype\.len\(\)\] ==> shim_vec_bsr(pc.prototype.len())
+//@rw vec!\[VecDeque::new\(\); pc\.prototype\.len\(\)\] ==> shim_vec_queues(pc.prototype.len())
+//@sig
+        requires old(reader).wf(), proto_ok(pc.prototype@), old(reader).log_file_size <= MAX_FILE,
+        ensures
+            match r {
+                // C17: fresh queues, absolute seeks only — nothing depends on the previous cursor or cache
+                Ok(q) => q.wf2() && q.pc == *pc && q.reader.same_file(old(reader))
+                    && (forall|i: int| 0 <= i < q.n() ==> (#[trigger] q.queues@[i])@.len() == 0 && (#[trigger] q.byte_streams@[i]).rest().len() == 0),
+                Err(_) => final(reader).wf() && final(reader).same_file(old(reader)) },
+//@endfn
+
+//@fn src/queue_reader.rs QueueReader available serves=C03,C08,C09 ret=r
+//@sig
+        requires self.queues@.len() == self.n(),
+        ensures self.n() == 0 ==> r == 0, self.n() > 0 ==> r == self.avail(),
+            forall|i: int| 0 <= i < self.n() ==> r <= (#[trigger] self.queues@[i])@.len() || self.n() == 0,
+//@rw for q in &self\.queues ==> for q in it: &self.queues
+//@loop 0 head
+            invariant self.queues@.len() == self.n(), av == min_len(self.queues@, it.index@ as int),
+                forall|i: int| 0 <= i < it.index@ ==> av <= (#[trigger] self.queues@[i])@.len(),
+//@endfn
+
+//@fn src/queue_reader.rs QueueReader pop_point serves=C03,C08,C09,C01 ret=r
+//@sig
+        requires old(self).wf2(),
+        ensures final(self).wf2(), final(self).reader == old(self).reader, final(self).pc == old(self).pc,
+            final(self).byte_streams == old(self).byte_streams,
+            match r {
+                // one value from the front of each queue, in prototype order
+                Ok(_) => final(output)@.len() == old(self).n()
+                    && (forall|i: int| 0 <= i < old(self).n() ==> (#[trigger] old(self).queues@[i])@.len() > 0
+                        && final(output)@[i] == old(self).queues@[i]@[0]
+                        && final(self).queues@[i]@ =~= old(self).queues@[i]@.subrange(1, old(self).queues@[i]@.len() as int)),
+                Err(e) => e is Internal && exists|i: int| 0 <= i < old(self).n() && (#[trigger] old(self).queues@[i])@.len() == 0 },
+//@loop 0 head
+            invariant
+                self.wf2(), self.reader == old(self).reader, self.pc == old(self).pc, self.byte_streams == old(self).byte_streams,
+                self.queues@.len() == old(self).queues@.len(),
+                output@.len() == i,
+                forall|j: int| 0 <= j < i ==> (#[trigger] old(self).queues@[j])@.len() > 0 && output@[j] == old(self).queues@[j]@[0]
+                    && self.queues@[j]@ =~= old(self).queues@[j]@.subrange(1, old(self).queues@[j]@.len() as int),
+                forall|j: int| i <= j < self.n() ==> self.queues@[j] == old(self).queues@[j],
+//@endfn
+}
+
+impl<'a> QueueReader<'a> {
 //@fn src/queue_reader.rs QueueReader advance serves=C03,C08,C09,C17,C01 ret=r
 //@rw vec!\[0; ([^;]*)\];\n ==> shim_vec_u8_zeros(\1);\n
 //@rw u16::from_le_bytes\(buf\) ==> shim_u16_from_le_bytes(buf)
@@ -390,6 +381,10 @@ impl<'a> QueueReader<'a> {
                 }
 //@endfn
 
+    // known finding F4: without the excluding precondition (all records zero-width) the same function fails
+    // the precondition of parse_byte_streams: min_queue_size stays usize::MAX and the zero-width fill never stops
+//@dupfn QueueReader::advance rename=advance__F4 serves=C09 known ;; !all_zero_width\(old\(self\)\.pc\.prototype@\), ==> <empty> ;; assert\(has_sized\(self\.pc\.prototype@\)\); ==> <empty>
+
 //@fn src/queue_reader.rs QueueReader parse_byte_streams serves=C03,C08,C09 ret=r
 //@rw for \(i, r\) in self\.pc\.prototype\.iter\(\)\.enumerate\(\) \{ ==> for i in 0..self.pc.prototype.len() { let r = &self.pc.prototype[i];
 //@sig
@@ -464,4 +459,60 @@ proof fn lemma_paid_step(pre: QueueReader, post: QueueReader, i: int)
     assert forall|j: int| #[trigger] idx(j) && 0 <= j < post.n() implies post.paid(j) by {
         if j != i { assert(pre.paid(j)); } else { assert(pre.paid(i)); }
     }
+}
+
+// ---------------------------------------------------------------------------------------------
+// pc_reader_raw.rs
+// ---------------------------------------------------------------------------------------------
+//@item src/pc_reader_raw.rs struct PointCloudReaderRaw
+//@rw <'a, T: Read \+ Seek> ==> <'a>
+//@rw QueueReader<'a, T> ==> QueueReader<'a>
+//@enditem
+
+impl<'a> PointCloudReaderRaw<'a> {
+    spec fn wf(&self) -> bool {
+        &&& self.queue_reader.wf2()
+        &&& !all_zero_width(self.queue_reader.pc.prototype@)
+    }
+
+//@fn src/pc_reader_raw.rs PointCloudReaderRaw new serves=C03,C08,C09,C17,C01 ret=r
+//@rw reader: &'a mut PagedReader<T> ==> reader: &'a mut PagedReader
+//@sig
+        requires old(reader).wf(), proto_ok(pc.prototype@), old(reader).log_file_size <= MAX_FILE, !all_zero_width(pc.prototype@),
+        ensures match r {
+            Ok(it) => it.wf() && it.read == 0 && it.records == pc.records && it.queue_reader.pc == *pc
+                && it.queue_reader.reader.same_file(old(reader)),
+            Err(_) => final(reader).wf() && final(reader).same_file(old(reader)) },
+//@endfn
+
+//@fn src/pc_reader_raw.rs PointCloudReaderRaw next trait=Iterator serves=C03,C08,C09,C01 ret=r
+//@rw Option<Self::Item> ==> Option<Result<RawValues>>
+//@sig
+        requires old(self).wf(),
+        ensures final(self).records == old(self).records,
+            // the page reader stays well-formed on every exit; the iterator itself is specified up to its first Err (C09)
+            final(self).queue_reader.reader.wf(),
+            final(self).queue_reader.reader.same_file(&*old(self).queue_reader.reader),
+            !(r matches Some(Err(_))) ==> final(self).wf(),
+            match r {
+                // C09: never more points than the declared record count
+                None => old(self).read >= old(self).records && final(self).read == old(self).read,
+                // one complete point (one value per prototype record), counted
+                Some(Ok(p)) => old(self).read < old(self).records && final(self).read == old(self).read + 1
+                    && p@.len() == old(self).queue_reader.n(),
+                Some(Err(_)) => final(self).read == old(self).read,
+            },
+//@loop 0 head
+            invariant
+                self.wf(), self.records == old(self).records, self.read == old(self).read, self.prototype_len == old(self).prototype_len,
+                self.queue_reader.pc == old(self).queue_reader.pc,
+                self.queue_reader.reader.same_file(&*old(self).queue_reader.reader),
+            // C09: every refill consumes input; the cursor is bounded by the logical file size
+            decreases self.queue_reader.reader.log_file_size + 8 - self.queue_reader.reader.offset,
+//@endfn
+
+//@fn src/pc_reader_raw.rs PointCloudReaderRaw size_hint trait=Iterator serves=C08,C09 ret=r
+//@sig
+        requires self.read <= self.records,
+//@endfn
 }
